@@ -334,12 +334,16 @@ NOT_APPLICABLE = {
 
 # the decision logic around the LP solver is under contract since unit pwl_feasible (the LP layer, the tolerance test and the repair heuristic stay oracles)
 _FEAS_ASSUME = [
-    'unit pwl_feasible: Polytope::status (LP solver, C10), Polytope::contains (tolerance membership) and AffTree::mirror_points (numeric repair) are ORACLES: external_body with uninterpreted results (lp_status, contains_tol; mirror_points: any answer); polyhedral_path_characterization (uses the dropped RefCell scratch buffer) is a named uninterpreted function of tree and path',
+    'unit pwl_feasible: Polytope::status (LP solver, C10), Polytope::contains (tolerance membership) and AffTree::mirror_points (numeric repair) are ORACLES: external_body with uninterpreted results (lp_status, contains_tol; mirror_points: any answer); '
+    'is_edge_feasible is verified TWICE: (i) with polyhedral_path_characterization as a named uninterpreted function of tree and path ASSUMED TOTAL (this is the contract the "any oracle" proofs of compose::<true,_> and the tree operators use; the real function is total exactly for K = 2 trees with shape-consistent decisions - it panics on labels >= 2), '
+    '(ii) as is_edge_feasible_v (K = 2, aff_shape_ok) with polyhedral_path_characterization_v verified on its real body (rule S4: the RefCell scratch buffer is a local Vec; `for (idx, label) in path` is the index loop; float literals / `&m * factor` as in PolyhedraGen::next; Polytope::intersection_n trusted: parts of the given dimension required, result = conjunction of the parts ASSUMED)',
     'rule D7: the PerformanceCounter increments (`counter.x += 1`, statistics only) are dropped from phase_inh / phase_two; rule I15 / I16: `solution.iter().filter(|p| hyperplane.contains(p)).map(..).collect_vec()` and `wit.iter().any(|p| poly.contains(p))` are the verified helpers filter_contained / any_contained; `solution.clone().insert_axis(Axis(1))` and `val.t().row(0).to_owned()` are spec-less trusted helpers (their results are re-checked with contains before use); `node_value(i)` is read as tree_node(i).value (rule N2)',
 ]
 _FEAS_TEXT = ('PROVED on the real branching of is_edge_feasible / phase_two / phase_inh (unit pwl_feasible; LP solver, tolerance test and repair heuristic as arbitrary oracles): an edge or node is declared infeasible ONLY on an Infeasible verdict '
               '(cached Infeasible state of the node or its parent, or the LP answer Infeasible) - LP Error, Unbounded and Optimal answers with ANY witness, however displaced, never prune; phase_two returns Infeasible iff the LP says Infeasible, Indeterminate on an LP Error, '
-              'and caches a witness only after that very point passed `contains` for that very polytope (the LP point or its repaired version); phase_inh only passes on parent witnesses that passed `contains` for the new half-space; edges leaving node 0 are always feasible. ')
+              'and caches a witness only after that very point passed `contains` for that very polytope (the LP point or its repaired version); phase_inh only passes on parent witnesses that passed `contains` for the new half-space; edges leaving node 0 are always feasible. '
+              'MEANING of a verdict (is_edge_feasible_v, binary trees, path polytope built by the real polyhedral_path_characterization): "infeasible" is answered only for a cached Infeasible state of the node / its parent or an Infeasible LP answer for a polytope that EVERY input whose evaluation passes the node satisfies '
+              '(edge_covers: path_to_node gives the (node, label) steps from the root, each contributes the half-space of its edge, an input passing the node leaves every decision of the path through the recorded label - lemma_reaches_routed). ')
 for pid, lvl in (('C11', 'other'), ('C05', 'other'), ('C03', 'other')):
     PROPS[pid]['units'] = ['pwl_feasible'] + (['pwl_elim'] if pid in ('C11', 'C03') else [])
     PROPS[pid]['level'] = lvl
